@@ -21,7 +21,7 @@ RULE = ('programs from a grammar (arithmetic/conditional expressions, assignment
 BUDGET = {'quick': (4, 1500), 'thorough': (16, 30000)}
 CRASH_GUARD = True
 SHRINK_CAP = {'quick': 400, 'thorough': 5000}
-ASSUMPTIONS = ['no ";" in generated code (the node splits on it: documented quirk); last line is a one-line expression',
+ASSUMPTIONS = ['the last line is a one-line expression, possibly behind statements that share the line',
                'exceptions are compared by class through the cause chain of the EvalError']
 
 
